@@ -17,8 +17,21 @@ ENGINE = 'tatsu.contexts.engine.ParserEngine'
 _null = Hook(lambda *_a, **_k: contextlib.nullcontext())
 
 
+def _getattr(o, n, *d):
+    if isinstance(o, Stub) and n in o._attrs:
+        return o._attrs[n]
+    if isinstance(o, Obj) and not n.startswith('__') and hasattr(o, n):
+        return getattr(o, n)
+    if d:
+        return d[0]
+    raise Unsupported(f'getattr({type(o).__name__}, {n!r})')
+
+
+_GETATTR = Hook(_getattr)
+
+
 def _interp(a, extra=None):
-    g = {'suppress': _null, 'MemoKey': Hook(lambda pos, ri: ('KEY', pos)), 'RuleResult': Hook(lambda node, newpos: ('RR', node, newpos))}
+    g = {'getattr': _GETATTR, 'suppress': _null, 'MemoKey': Hook(lambda pos, ri: ('KEY', pos)), 'RuleResult': Hook(lambda node, newpos: ('RR', node, newpos))}
     g.update(extra or {})
     return ModelInterp(a, g)
 
@@ -325,7 +338,7 @@ def replay_contracts(a, rule_id):
         me = Stub(ENGINE, states=states, pos=5, _results=results, memo=Hook(lambda key: memo_value), set_left_recursion_guard=Hook(lambda key: None),
                   next_token=Hook(lambda *x: None), set_parseinfo=Hook(lambda *x, **k: None), memoize=Hook(lambda key, res: res),
                   semantics_call=Hook(lambda ri, node, pos=None: node), func_call=Hook(lambda ri: evaluated.append('body') or 'BODY'),
-                  clear_recursion_errors=Hook(lambda: None), goto=Hook(lambda p: None), save_result=Hook(lambda k, r: None),
+                  clear_recursion_errors=Hook(lambda *x, **k: None), goto=Hook(lambda p: None), save_result=Hook(lambda k, r: None),
                   newexcept=Hook(lambda *x, **k: RuntimeError('seed')),
                   config=Obj(left_recursion=True))
         return me, states, evaluated
@@ -335,7 +348,7 @@ def replay_contracts(a, rule_id):
     fn = a.ct.lookup(ENGINE, 'rule_call')
     for what, memo_value in (('a memoized result', hit), ('a memoized exception', boom)):
         me, states, evaluated = engine(memo_value, {})
-        ret, raised = _run(ModelInterp(a, {'RuleResult': Hook(lambda node, newpos: Stub(RR, node=node, newpos=newpos), q=RR)}), me, fn, [Obj(name='r', is_lrec=False, is_name=False, is_tokn=False), Obj(pos=5)])
+        ret, raised = _run(ModelInterp(a, {'getattr': _GETATTR, 'RuleResult': Hook(lambda node, newpos: Stub(RR, node=node, newpos=newpos), q=RR)}), me, fn, [Obj(name='r', is_lrec=False, is_name=False, is_tokn=False), Obj(pos=5)])
         ops = [t[0] for t in states.trace]
         ok = not ops and not evaluated and ((ret is hit and raised is None) if memo_value is hit else (raised is not None and ret is None))
         rep.add({'fn': 'rule_call', 'memo_holds': what, 'returns': repr(ret), 'raised': raised, 'frame_ops': ops, 'body_evaluated': bool(evaluated), 'ok': ok})
@@ -347,7 +360,7 @@ def replay_contracts(a, rule_id):
     for what, stored in (('a result', hit), ('an exception', boom)):
         me, states, evaluated = engine(None, {'KEY': stored})
         me._attrs['rule_call'] = Hook(lambda ri, key: evaluated.append('rule_call') or hit)
-        ret, raised = _run(ModelInterp(a, {'RuleResult': Hook(lambda node, newpos: Stub(RR, node=node, newpos=newpos), q=RR)}), me, fn, [Obj(name='r', is_lrec=True), 'KEY'])
+        ret, raised = _run(ModelInterp(a, {'getattr': _GETATTR, 'RuleResult': Hook(lambda node, newpos: Stub(RR, node=node, newpos=newpos), q=RR)}), me, fn, [Obj(name='r', is_lrec=True), 'KEY'])
         ok = not evaluated and ((ret is hit and raised is None) if stored is hit else (raised is not None))
         rep.add({'fn': 'recursive_call', '_results_holds': what, 'returns': repr(ret), 'raised': raised, 'evaluated': evaluated, 'ok': ok})
         if not ok:
@@ -362,7 +375,7 @@ def replay_contracts(a, rule_id):
         order.append(('eval', 'KEY' in results))
         raise Raised('FailedParse', ast.Pass())
     me._attrs['rule_call'] = Hook(rc)
-    ret, raised = _run(ModelInterp(a, {'RuleResult': Hook(lambda node, newpos: Stub(RR, node=node, newpos=newpos), q=RR)}), me, fn, [Obj(name='r', is_lrec=True), 'KEY'])
+    ret, raised = _run(ModelInterp(a, {'getattr': _GETATTR, 'RuleResult': Hook(lambda node, newpos: Stub(RR, node=node, newpos=newpos), q=RR)}), me, fn, [Obj(name='r', is_lrec=True), 'KEY'])
     ok = order[:1] == [('eval', True)]
     rep.add({'fn': 'recursive_call', '_results_holds': 'nothing', 'seed_present_at_first_evaluation': order[:1], 'ok': ok})
     if not ok:
@@ -381,7 +394,7 @@ def replay_contracts(a, rule_id):
             return Stub(RR, node=f'N{len(seq)}', newpos=seq.pop(0))
         me._attrs['rule_call'] = Hook(rc2)
         me._attrs['save_result'] = Hook(lambda k, r, results=results, saved=saved: (results.__setitem__(k, r), saved.append(r._attrs['newpos']))[0])
-        ret, raised = _run(ModelInterp(a, {'RuleResult': Hook(lambda node, newpos: Stub(RR, node=node, newpos=newpos), q=RR)}), me, fn, [Obj(name='r', is_lrec=True), 'KEY'])
+        ret, raised = _run(ModelInterp(a, {'getattr': _GETATTR, 'RuleResult': Hook(lambda node, newpos: Stub(RR, node=node, newpos=newpos), q=RR)}), me, fn, [Obj(name='r', is_lrec=True), 'KEY'])
         got = ret._attrs['newpos'] if isinstance(ret, Stub) else None
         ok = raised is None and got == want
         rep.add({'fn': 'recursive_call', 'start': start, 'evaluations_end_at': positions, 'returns_result_ending_at': got, 'raised': raised, 'want': want, 'ok': ok})
